@@ -51,6 +51,23 @@ fn main() {
             bad += 1;
         }
     }
+    // resize-window and boundary scenarios, small
+    {
+        let o = wl::run_resize_window(seed, 1 + (seed % 2) as usize, 2, 3);
+        println!("H rw{} {:016x} {} {} {} {} {}", seed, o.interleaving_hash, o.ops, o.grants, o.denials, o.forced, o.samples);
+        for v in &o.violations {
+            println!("VIOL {}", v);
+            bad += 1;
+        }
+        for (i, limit) in [usize::MAX, usize::MAX / 2, 1000].into_iter().enumerate() {
+            let o = wl::run_boundary(seed.wrapping_mul(31).wrapping_add(i as u64), 20, limit);
+            println!("H b{}-{} {:016x} {} {} {} {} {}", seed, i, o.interleaving_hash, o.ops, o.grants, o.denials, o.forced, o.samples);
+            for v in &o.violations {
+                println!("VIOL {}", v);
+                bad += 1;
+            }
+        }
+    }
     if bad > 0 {
         std::process::exit(1);
     }
